@@ -222,10 +222,14 @@ class Exec:
         return menus, taken
 
 
-def judge(ex, res):
-    '''Reopen the database left behind and compare.'''
+def judge(ex, res, resume=False):
+    '''Reopen the database left behind and compare.  resume: then run the server on it again
+    until it has caught up with the daemon, and compare once more (what the shutdown left
+    behind must also be a sound basis for the next run).'''
     w = ex.w
     failures = []
+    final = list(w.daemon.best)
+    orphans = [b for b in w.daemon.by_hash.values()]
     task = w.bp_task
     if not task.done():
         failures.append(('task-did-not-finish', {}))
@@ -274,6 +278,27 @@ def judge(ex, res):
         res.distinct('stored_heights', (ex.shape, h))
     finally:
         w2.close(destroy=False)
+    if resume and not failures and final:
+        w3 = world.World(ex.m, reorg_limit=5, activation=ACT)
+        try:
+            w3.daemon.add_known(orphans)
+            w3.daemon.set_chain(final)
+            w3.start_sync()
+            try:
+                w3.run_until_caught_up()
+                ref = observe.ref_at(final, len(final) - 1, ACT)
+                obs = observe.observe(w3, ref, what=WHAT)
+                for field, detail in observe.compare(obs, ref, WHAT):
+                    failures.append((f'next-run:{field}', dict(height=len(final) - 1, **(
+                        {k: v for k, v in detail.items() if k in ('script', 'got', 'want')}
+                        if isinstance(detail, dict) else {}))))
+            except (world.SyncFailed, world.Stalled) as e:
+                failures.append(('next-run-died', dict(stored=h, error=repr(e))))
+            except (world.ReaderBlocked, observe.ReadFailed, RuntimeError) as e:
+                failures.append(('next-run:reader-retries-forever', dict(error=repr(e))))
+            res.count('next_runs_on_the_database_left_behind')
+        finally:
+            w3.close(destroy=False)
     return failures
 
 
@@ -290,7 +315,7 @@ def explore_instant(shape, cancel_at, bound, res, only_choices=None):
                 ended = True
                 break
             menus, taken = out
-            failures = judge(ex, res)
+            failures = judge(ex, res, resume=not any(taken))
             res.count('executions')
             res.count('after_cancel_choice_points', len(menus))
             if ex.overlap:
